@@ -294,12 +294,13 @@ func simStoreAfter(method string, err error) {
 // Users seeded directly on the Disk (through the real store API, before clients connect).
 
 type simUser struct {
-	Idx   int
-	Uid   types.Uid
-	Login string
-	Pass  string
-	Level auth.Level
-	Token []byte
+	CredDone bool
+	Idx      int
+	Uid      types.Uid
+	Login    string
+	Pass     string
+	Level    auth.Level
+	Token    []byte
 }
 
 var bcryptCache = map[string][]byte{}
@@ -369,3 +370,7 @@ func (l *logScanner) Write(p []byte) (int, error) {
 
 func (l *logScanner) count(phrase string) int { return l.counts[phrase] }
 func (l *logScanner) reset()                  { l.counts = map[string]int{} }
+
+func storeUsersUpsertCred(uid types.Uid, method, value string) (bool, error) {
+	return store.Users.UpsertCred(&types.Credential{User: uid.String(), Method: method, Value: value, Done: true})
+}
